@@ -70,6 +70,8 @@ def plan(tier, seed):
         sh.append(['EDIT', lo, hi])
     for lo, hi in chunks(82, 4):
         sh.append(['ATOMS', lo, hi])
+    for lo, hi in chunks(82, 4):
+        sh.append(['S0', lo, hi])
     if tier == 'quick':
         for lo, hi in chunks(3836, 48):
             sh.append(['Brep', lo, hi])
@@ -162,6 +164,17 @@ def run_shard(shard, tier, seed, acc):
                 Kl = lib.to_kripke(k)
                 for f in full:
                     check_one(k, Kl, f, acc)
+        return
+    if kind == 'S0':
+        # initial states are part of the structure but not of the semantics of modelcheck: the
+        # answer ranges over ALL states, reachable from S0 or not
+        forms = _forms_le(1, spaces.LEAVES2)
+        for k in ((spaces.kripke_reps(1) + spaces.kripke_reps(2))[shard[1]:shard[2]] + spaces.kripke_reps(3, ('p',))[shard[1]::82]):
+            for S0 in ([0], [k.n - 1], list(range(k.n)), []):
+                Kl = lib.to_kripke(k, S0=S0)
+                for f in forms:
+                    check_one(k, Kl, f, acc)
+        acc.sample({'S0': [0], 'note': 'states unreachable from S0 must still be answered'})
         return
     if kind == 'ATOMS':
         # the same structures and formulas under other atom names: single capitals, names of the
